@@ -78,7 +78,8 @@ def run(F, R, tier):
         if n == "Invalid":
             continue
         widths = defs.get(n, {}).get("widths", [])
-        reads = decode_reads(a["body"])
+        # operand decoding may live in small helpers (`read_u16_operand(code, ip)`): the arm is read with them inlined
+        reads = decode_reads(H.inline_helpers(F, a["body"]))
         want, off = [], 1
         for w in widths:
             want.append((off, w, "be" if w == 2 else "-"))
